@@ -3,7 +3,8 @@
    statistical check compares the running program with, and the acceptance identities the moves
    rely on; convergence of the running program itself is measured, not proved (see DESIGN.md). *)
 From Coq Require Import QArith Qminmax ZArith Lia List.
-From Inf Require Import model.LatticeM proofs.LatticeP.
+From Inf Require Import model.LatticeM proofs.LatticeP proofs.LatticeShootP proofs.PermMarginalP.
+From Inf Require spec.PermS.
 Open Scope Q_scope.
 
 (* any function harmonic for the +-1 walk on 0..K with h 0 = 0, h K = 1 is x/K (uniqueness of
@@ -35,6 +36,76 @@ Theorem C01_estimator_exact : forall rows p,
   ~ est_den rows == 0 -> est_num rows == p * est_den rows -> estimator rows == p.
 Proof. exact estimator_exact. Qed.
 Print Assumptions C01_estimator_exact.
+
+(* ------------------------------------------------------------------ the shooting move on the lattice walk
+   (proofs/LatticeShootP.v).  A path is a list of lattice positions; [valid_pathb N k Lmax]: a path
+   of ensemble [k+] with last interface N and length limit Lmax; pi p = (1/2)^(len p - 1) its weight
+   as a trajectory of the walk; a trial from old at interior index i with backward steps bs and
+   forward steps fs has generation probability gen_prob = 1/(L_old - 2) * (1/2)^(L_new - 1); the
+   accepted values of the drawn number xi form exactly the interval (0, acc_prob]
+   ([C01_accepted_iff_interval], from the maxlen rule int((L_old-2)/xi)+2 of C09). *)
+Theorem C01_accepted_iff_interval : forall N k Lmax old new xi,
+  (3 <= length old)%nat -> 0 < xi -> xi <= 1 ->
+  (accepted N k Lmax old new xi <-> xi <= acc_prob N k Lmax old new).
+Proof. exact accepted_iff_interval. Qed.
+Print Assumptions C01_accepted_iff_interval.
+
+(* super-detailed balance: for valid paths old, new of the same ensemble sharing a shooting point,
+   each is the trial generated from the other at that point, and the probability flows agree *)
+Theorem C01_shooting_super_detailed_balance : forall N k Lmax old new i j,
+  valid_pathb N k Lmax old = true -> valid_pathb N k Lmax new = true ->
+  (1 <= i <= length old - 2)%nat -> (1 <= j <= length new - 2)%nat -> nth i old 0%Z = nth j new 0%Z ->
+  trial (nth i old 0%Z) (back_steps new j) (fwd_steps new j) = new /\
+  trial (nth j new 0%Z) (back_steps old i) (fwd_steps old i) = old /\
+  pi old * gen_prob old (back_steps new j) (fwd_steps new j) * acc_prob N k Lmax old new ==
+  pi new * gen_prob new (back_steps old i) (fwd_steps old i) * acc_prob N k Lmax new old.
+Proof. exact shooting_super_detailed_balance. Qed.
+Print Assumptions C01_shooting_super_detailed_balance.
+
+(* hence detailed balance of the move (summed over shooting points) and stationarity of pi on the
+   finite set of valid paths of the ensemble *)
+Theorem C01_shooting_detailed_balance : forall N k Lmax old new,
+  valid_pathb N k Lmax old = true -> valid_pathb N k Lmax new = true ->
+  pi old * move_density N k Lmax old new == pi new * move_density N k Lmax new old.
+Proof. exact shooting_detailed_balance. Qed.
+Print Assumptions C01_shooting_detailed_balance.
+
+Theorem C01_shooting_stationary : forall N k Lmax new,
+  valid_pathb N k Lmax new = true ->
+  sumq (fun old => pi old * chain (list Z) path_eqb (move_density N k Lmax) (all_valid N k Lmax) old new)
+       (all_valid N k Lmax) == pi new.
+Proof. exact shooting_stationary_full. Qed.
+Print Assumptions C01_shooting_stationary.
+
+(* the rule before repair d6ed295 (accept iff xi <= (L_old-2)/(L_new-2+1)), a rule with L instead of
+   L-2, a move without the length rule ('ld' paths / allowmaxlength) and an index over all frames do
+   NOT balance *)
+Theorem C01_rule_before_repair_refuted :
+  ~ balance_with sel_code (fun Lo Ln => Qmin 1 (nq (Lo - 2) / nq (Ln - 2 + 1))) ex_old ex_new 2 2.
+Proof. exact rule_before_repair_breaks_balance. Qed.
+Print Assumptions C01_rule_before_repair_refuted.
+
+(* ------------------------------------------------------------------ the swap probabilities are the marginals
+   of the equilibrium distribution over path-ensemble assignments (proofs/PermMarginalP.v): an
+   assignment is a permutation s, its weight the product of W i (s i); the permanent is the sum of
+   the weights, assign_prob = weight / permanent is a probability distribution for non-negative W,
+   and Pspec n W i j (what property C02 proves the code computes) is the probability that path i
+   sits in ensemble j *)
+Theorem C01_perm_is_sum_over_assignments : forall n W,
+  PermS.perm n W == lsum (pweight n W) (perms_of n).
+Proof. exact perm_is_sum_over_permutations. Qed.
+Print Assumptions C01_perm_is_sum_over_assignments.
+
+Theorem C01_assignment_distribution : forall n W, ~ PermS.perm n W == 0 ->
+  lsum (assign_prob n W) (perms_of n) == 1.
+Proof. exact assign_prob_sum_one. Qed.
+Print Assumptions C01_assignment_distribution.
+
+Theorem C01_swap_probability_is_marginal : forall n W i j, (i < n)%nat -> (j < n)%nat ->
+  PermS.Pspec n W i j ==
+  lsum (assign_prob n W) (filter (fun s => Nat.eqb (nth i s 0%nat) j) (perms_of n)).
+Proof. exact Pspec_is_marginal_of_assign_prob. Qed.
+Print Assumptions C01_swap_probability_is_marginal.
 
 Example C01_example_values : cross_exact 0 == 1 # 2 /\ cross_exact 1 == 2 # 3 /\ cross_exact 2 == 3 # 4.
 Proof. repeat split; reflexivity. Qed.
